@@ -463,6 +463,30 @@ def c09_authenticate (cfg : Cfg) (req : AuthReq) (pre : List Passkey) (o : CObs 
               | none => some "prf-requested-but-no-output"
               | some out => if Auth.Spec.prfMatches k (saltsOf ph v) out then none else some "prf-result-is-not-the-hmac-of-the-specified-salt-under-the-right-secret"
 
+/-! ### C04 — consent, seen from the WebAuthn caller (`userVerification` as the request for verification) -/
+
+/-- clauses of C04 for a client ceremony: `required` is the request for verification the statement speaks
+of (how the client maps `preferred` is left to the model comparison); presence is always required.
+`ad`: authenticator data of a successful ceremony -/
+def c04_client (uvReq : UvReq) (uv : UvCfg) (pre post : List PkSnap) (trace : List EvObs) (ad : Option Bytes) (failedOrPanic : Bool) : Option String :=
+  let effects := trace.any (fun e => match e with | .save .. => true | .update .. => true | _ => false)
+  let asked := trace.any (fun e => match e with | .uv .. => true | _ => false)
+  if failedOrPanic && uvReq == .required && uv.verification != some true && (decide (pre ≠ post) || effects) then
+    some "verification-required-from-an-authenticator-without-it-but-store-touched"
+  else match ad with
+  | none => if effects && !asked then some "store-written-without-asking-the-user" else none
+  | some ad =>
+    if uvReq == .required && uv.verification != some true then some "verification-required-from-an-authenticator-without-it-is-not-an-error" else
+    match uv.answer with
+    | .error _ => some "result-although-the-user-validation-step-failed"
+    | .ok (p, v) =>
+      if !asked then some "result-without-asking-the-user" else
+      if !p then some "result-without-user-presence" else
+      if uvReq == .required && !v then some "result-without-the-required-user-verification" else
+      let flags := ad.getD 32 0
+      if (flags &&& 0x01 != 0) != p then some "up-flag-is-not-what-the-user-validation-step-reported" else
+      if (flags &&& 0x04 != 0) != v then some "uv-flag-is-not-what-the-user-validation-step-reported" else none
+
 def verdictReg (prop : String) (cfg : Cfg) (kind : StoreKind) (uv : UvCfg) (origin : RpId.Origin) (originStr : String)
     (req : RegisterReq) (mode : ClientDataMode) (draws : Option Draws) (pre : List PkSnap) (impl : String) : String :=
   match parseRegObs impl with
@@ -471,6 +495,10 @@ def verdictReg (prop : String) (cfg : Cfg) (kind : StoreKind) (uv : UvCfg) (orig
     if prop = "C11" then (match c11_register kind uv req o with | none => "ok" | some f => "fail:" ++ f)
     else if prop = "C02" then (match c02_register cfg kind origin originStr req mode draws pre o with | none => "ok" | some f => "fail:" ++ f)
     else if prop = "C09" then (match c09_register cfg req pre o with | none => "ok" | some f => "fail:" ++ f)
+    else if prop = "C04" then
+      (match c04_client ((req.selection.map (·.userVerification)).getD .preferred) uv pre o.store o.trace
+          (match o.res with | .ok r => some r.authData | _ => none) (match o.res with | .ok _ => false | _ => true) with
+        | none => "ok" | some f => "fail:" ++ f)
     else "na"
 
 /-! ### C13 — during authentication "no credentials" is credential-not-found -/
@@ -492,6 +520,10 @@ def verdictAuth (prop : String) (cfg : Cfg) (_kind : StoreKind) (uv : UvCfg) (or
     else if prop = "C03" then (match c03_authenticate uv origin originStr req mode preItems o with | none => "ok" | some f => "fail:" ++ f)
     else if prop = "C09" then (match c09_authenticate cfg req preItems o with | none => "ok" | some f => "fail:" ++ f)
     else if prop = "C13" then (match c13_authenticate o with | none => "ok" | some f => "fail:" ++ f)
+    else if prop = "C04" then
+      (match c04_client req.userVerification uv pre o.store o.trace
+          (match o.res with | .ok r => some r.authData | _ => none) (match o.res with | .ok _ => false | _ => true) with
+        | none => "ok" | some f => "fail:" ++ f)
     else "na"
 
 end PasskeyVerif.Spec.Client
